@@ -490,7 +490,12 @@ def fam_C09(seed, n):
                     y = r.random()
                     nv += 1
                     if y < 0.3:
-                        sc.add("h set", r.choice(["k0", "k1"]), r.choice(["s" + hx("v%d" % nv), "i%d" % nv, "b1"]))
+                        line = ("h set", r.choice(["k0", "k1"]), r.choice(["s" + hx("v%d" % nv), "i%d" % nv, "b1"]))
+                        if r.random() < 0.08:
+                            # the save fails, the application retries the same call
+                            sc.add("fault save * 0")
+                            sc.add(*line)
+                        sc.add(*line)
                     elif y < 0.42:
                         sc.add("h del", r.choice(["k0", "k1"]))
                     elif y < 0.57:
